@@ -6,7 +6,11 @@
 set -u
 patch=$(readlink -f "$1"); shift
 wt=/tmp/mwt-$$
-git -C /repo worktree add -q "$wt" HEAD || exit 2
+for try in 1 2 3 4 5; do   # another run may hold the repository lock for a moment
+  git -C /repo worktree add -q "$wt" HEAD 2>/dev/null && break
+  sleep $try
+done
+[ -d "$wt" ] || { echo "$(basename $patch) WORKTREE-FAILED exit=2"; exit 2; }
 trap 'git -C /repo worktree remove --force "$wt" 2>/dev/null; rm -rf /tmp/mwt-ev-$$' EXIT
 cd "$wt" || exit 2
 if ! git apply "$patch"; then echo "$(basename $patch) PATCH-DOES-NOT-APPLY"; exit 2; fi
